@@ -218,6 +218,27 @@ def Rule.tr (r : Rule) (n : Nat) : Term × Nat :=
     let rb := r.body.tr s0 s1 (n + 3)
     (Term.a2 ":-" head (Term.a2 "," rb.1 (Term.a2 "=" s (Term.list pb s1))), rb.2)
 
+/-! ## Clause bodies (ISO 7.8.5, 7.8.6): what the translated body means as a sequence of goals -/
+
+/-- the goals of a clause body: conjunction is associative and transparent to cut, so nested
+    conjunctions on either side are one sequence -/
+def conjuncts : Term → List Term
+  | .app "," (.cons a (.cons b .nil)) => conjuncts a ++ conjuncts b
+  | t => [t]
+
+/-- the top-level disjuncts of a clause body (an if-then-else is one disjunct) -/
+def disjuncts : Term → List Term
+  | .app ";" (.cons a (.cons b .nil)) =>
+    match a with
+    | .app "->" (.cons _ (.cons _ .nil)) => [.app ";" (.cons a (.cons b .nil))]
+    | _ => a :: disjuncts b
+  | t => [t]
+
+/-- the elements of a grammar-body sequence -/
+def Body.elems : Body → List Body
+  | .seq a b => a.elems ++ b.elems
+  | b => [b]
+
 /-! ## Denotation -/
 
 /-- search state: bindings and the next unused variable -/
